@@ -130,6 +130,40 @@ Theorem worker_view_drift :
     /\ (forall k, atomic (st k) = true).
 Proof. exact Worker.worker_view_drift. Qed.
 
+(** the two shapes of disagreement, for ANY proxy: (a) state accepts, proxy refuses *)
+Theorem worker_drift_state_accepts_proxy_refuses :
+  forall fingerprint inames hc_valid steps (live : Type) (proxy : live -> request -> live * bool) w r v' l',
+    dispatch fingerprint inames hc_valid steps (w_view live w) r = (v', Ok) -> v' <> w_view live w ->
+    proxy (w_live live w) r = (l', false) ->
+    snd (notify fingerprint inames hc_valid steps live proxy w r) = false
+    /\ w_view live (fst (notify fingerprint inames hc_valid steps live proxy w r)) <> w_view live w.
+Proof. intros. eapply drift_state_accepts_proxy_refuses; eauto. Qed.
+
+(** (b) state rejects: the view is untouched, the proxy decides the answer and the live state *)
+Theorem worker_drift_state_rejects_proxy_acts :
+  forall fingerprint inames hc_valid (live : Type) (proxy : live -> request -> live * bool) w r e v' l' ok,
+    Inv (w_view live w) ->
+    dispatch fingerprint inames hc_valid steps_of (w_view live w) r = (v', Err e) ->
+    proxy (w_live live w) r = (l', ok) ->
+    notify fingerprint inames hc_valid steps_of live proxy w r = (W live (w_view live w) l', ok).
+Proof.
+  intros fp nm hc live proxy w r e v' l' ok HI Hd Hp.
+  eapply (drift_state_rejects_proxy_acts fp nm hc steps_of live proxy); eauto. apply generated_steps_atomic.
+Qed.
+
+(** per verb, shape (a): the ConfigState accepts these on an address the
+    worker has no listener for; with a proxy that refuses, "no trace" is refuted
+    (each reproduced on a real worker on every run) *)
+Theorem worker_no_trace_refuted_per_verb :
+  drifts (RAddFront false (Front 0 0 0 0 None (Some 0) 2 0))
+  /\ drifts (RAddFront true (Front 0 0 0 0 None (Some 0) 2 0))
+  /\ drifts (RAddTFront false 0 (TFront 1 0))
+  /\ drifts (RAddCert 0 (Cert 0 [] 0)).
+Proof.
+  repeat split; [apply add_http_frontend_no_trace_refuted|apply add_https_frontend_no_trace_refuted
+                |apply add_tcp_frontend_no_trace_refuted|apply add_certificate_no_trace_refuted].
+Qed.
+
 (** non-vacuity: a reachable, non-empty state in which a listener patch with
     good fields and one bad validated field is rejected *)
 Example err_is_noop_nonvacuous :
